@@ -118,6 +118,12 @@ def gen_scenario(rng, ctype, r, c, F, sparse=0):
         # band) before the calibration uses them
         sc.prequery = rng.random() < 0.4
         sc.sufficient_recipe(extras=int(rng.integers(0, 4)))
+        if r != c and ctype in physics.LEAKAGE_OUTSIDE and rng.random() < 0.5:
+            # every standard is measured on its own ports only wherever the
+            # API allows it: a leakage cell is then sampled only by the
+            # standards that sit on the other side of it (the isolation
+            # step of a one-path calibration)
+            sc.abbr_all = True
         sc.choose_entries()
         if r == c and r >= 2 and rng.random() < 0.2:
             # partly specified standards: only some columns (T types) or
